@@ -4,7 +4,8 @@ import itertools
 from harness.core import Rng, gz, glist, Dec
 
 PID = "C13"
-VO = ["theories/Misc/Merge.vo", "theories/Misc/Merge_proofs.vo", "theories/Base/Flat.vo"]
+VO = ["theories/Misc/Merge.vo", "theories/Misc/Merge_proofs.vo", "theories/Misc/MergeGen.vo",
+      "theories/Misc/MergeSrc.vo", "theories/Misc/MergeSrc_proofs.vo", "theories/Base/Flat.vo"]
 PROPS_FILES = ["props/C13.v"]
 TRANSLATORS = ["t_merge"]
 REQUIRES = ["From FL Require Import Num Flat Merge."]
@@ -14,13 +15,21 @@ CASE_TIMEOUT = 300
 
 LEVEL_TEXT = ("Proof (Coq): for the escape chain and separator regenerated from _merge_columns on every run, "
               "merge is injective on non-empty rows over any alphabet (via a decoder, unmerge(merge r) = r) and the "
-              "partition by merged string equals the partition by tuple equality. Tie to the code: translator "
+              "partition by merged string equals the partition by tuple equality; for the two feature blocks of "
+              "_validate_and_reformat_input, the row pipeline of _merge_columns and the ThresholdOptimizer / "
+              "InterpolatedThresholder key paths regenerated on every run: both blocks merge exactly the checked array "
+              "exactly when it has several columns, every row goes through astype(str) -> escape -> join with nothing "
+              "in between, the produced column partitions the rows by tuple equality, and the key computed at predict "
+              "time equals the key stored at fit time iff the tuples are equal (same function, keyword and slot). "
+              "Tie to the code: translator "
               "t_merge (fail closed) + differential run of the Gallina merge against _merge_columns on all 2-column "
               "and sampled 3-column tuples over a 12-string adversarial alphabet, and partition checks through "
               "_validate_and_reformat_input, the parity moments, MetricFrame, ThresholdOptimizer fit/predict, "
               "ExponentiatedGradient and GridSearch against single-column relabelled twins.")
-LEVEL_NOTE = ("Trusted: Coq kernel + vm_compute; translator t_merge (Python ast -> (pattern, replacement) list; "
-              "single-character str.replace semantics as written in Merge.replace1); numpy astype(str) and pandas "
+LEVEL_NOTE = ("Trusted: Coq kernel + vm_compute; translator t_merge (Python ast -> (pattern, replacement) list and "
+              "call-site records; single-character str.replace semantics as written in Merge.replace1; the "
+              "interpretation MergeSrc.column_of of a feature block; check_array / pd.Series(.squeeze()) / "
+              "_reformat_data_into_dict keep the values as they are); numpy astype(str) and pandas "
               "group-by are modelled, not verified; the end-to-end estimator runs are correspondence, not proof.")
 TECHNIQUE = "Coq proof of injectivity on the source-regenerated escape chain + differential model/implementation run"
 TRUSTED = ["Coq 8.16.1 kernel and vm_compute", "translators/t_merge.py", "harness/props/c13.py (generators, "
@@ -68,7 +77,8 @@ def _source_specials():
         from harness import core
         from translators import t_merge
         txt = t_merge.translate(core.REPO)["Gen_merge.v"]
-        return sorted({chr(int(x)) for x in re.findall(r"\d+", txt.split("Definition steps")[1])})
+        chain = txt.split("Definition steps")[1].split("(* ---- call sites")[0]     # steps and sep only
+        return sorted({chr(int(x)) for x in re.findall(r"\d+", chain)})
     except Exception:
         return [",", "\\"]
 
